@@ -65,6 +65,181 @@ def shuffle(rng, j):
     return j
 
 
+# ---- spellings of uuid / date-time leaves (the forgiving Go readers against parse_uuid / parse_datetime of the model) ----
+HEXD = "0123456789abcdefABCDEF"
+
+
+def _hyph(h):
+    return "-".join([h[0:8], h[8:12], h[12:16], h[16:20], h[20:32]])
+
+
+def uuid_spelling(rng):
+    """-> (family, JSON value) : every accepted family and its near misses"""
+    h = "".join(rng.choice(HEXD) for _ in range(32))
+    if rng.random() < 0.3:
+        h = h.lower()
+    u = _hyph(h)
+    fam = rng.choice(["canonical", "upper", "mixed", "urn", "urn-case", "urn-miss", "braces", "outer-bytes", "outer-nonascii", "bare32",
+                      "length", "length-urn", "nonhex", "nonhex-bare", "hyphen-moved", "hyphen-other", "hyphen-bare", "zero", "empty", "kind",
+                      "space", "inner-brace"])
+    if fam == "canonical":
+        return fam, u.lower()
+    if fam == "upper":
+        return fam, u.upper()
+    if fam == "mixed":
+        return fam, u
+    if fam == "urn":
+        return fam, "urn:uuid:" + u
+    if fam == "urn-case":
+        return fam, "".join(c.upper() if rng.random() < 0.5 else c for c in "urn:uuid:") + u
+    if fam == "urn-miss":
+        return fam, rng.choice(["urn:uuix:", "urn-uuid:", "URN:UUID;", "urn:uuid", "uuid:urn:", "urn:\u212auid:", "\u00fcrn:uuid", "urn:uu\u0131d:", "xrn:uuid:"]) + u
+    if fam == "braces":
+        return fam, "{" + u + "}"
+    if fam == "outer-bytes":
+        a, z = rng.choice("{(x0-\" \x00\x7f}"), rng.choice("})y9- \\\x01{")
+        return fam, a + u + z
+    if fam == "outer-nonascii":      # two bytes in UTF-8: the length is no longer 38
+        return fam, rng.choice(["\u00e9" + u + "}", "{" + u + "\u00e9", "\u00e9" + u[1:] + "}", "{" + u[:-1] + "\u00e9", "\u00e9" + u[:-1]])
+    if fam == "bare32":
+        return fam, h
+    if fam == "length":
+        n = rng.choice([31, 33, 34, 35, 37, 39, 40, 30])
+        base = rng.choice([u, h, "{" + u + "}"])
+        return fam, (base + "".join(rng.choice(HEXD) for _ in range(12)))[:n] if len(base) < n else base[:n]
+    if fam == "length-urn":
+        n = rng.choice([44, 46, 43, 47])
+        base = "urn:uuid:" + u
+        return fam, (base + "0123")[:n]
+    if fam == "nonhex":
+        i = rng.choice([k for k in range(36) if k not in (8, 13, 18, 23)])
+        base = rng.choice([u, "{" + u + "}", "urn:uuid:" + u])
+        off = base.index(u[:8]) if u[:8] in base else 0
+        c = rng.choice("gGzZ:@`/ _-.xX")
+        return fam, base[:off + i] + c + base[off + i + 1:]
+    if fam == "nonhex-bare":
+        i = rng.randrange(32)
+        return fam, h[:i] + rng.choice("gG-:@`/ x") + h[i + 1:]
+    if fam == "hyphen-moved":
+        k = rng.choice([8, 13, 18, 23])
+        d = rng.choice([-1, 1])
+        l = list(u)
+        l[k], l[k + d] = l[k + d], l[k]
+        return fam, rng.choice(["", "{", "urn:uuid:"]).join(["", "".join(l)]) if rng.random() < 0.5 else "".join(l)
+    if fam == "hyphen-other":
+        k = rng.choice([8, 13, 18, 23])
+        return fam, u[:k] + rng.choice("_:. +0a\u2010"[:8]) + u[k + 1:]
+    if fam == "hyphen-bare":
+        i = rng.randrange(1, 31)
+        return fam, h[:i] + "-" + h[i + 1:]
+    if fam == "zero":
+        return fam, rng.choice(["00000000-0000-0000-0000-000000000000", "0" * 32, "{00000000-0000-0000-0000-000000000000}"])
+    if fam == "empty":
+        return fam, rng.choice(["", None])
+    if fam == "kind":
+        return fam, rng.choice([5, True, [], {}, [u], {"uuid": u}, 0, 1.5])
+    if fam == "space":
+        return fam, rng.choice([" " + u, u + " ", " " + u + " ", u + "\n", "\t" + u + "\t"])
+    return fam, u[:9] + "{" + u[10:]
+
+
+def datetime_spelling(rng):
+    y = rng.choice([0, 1, 4, 100, 400, 1582, 1900, 1999, 2000, 2020, 2021, 2024, 2100, 9999, rng.randrange(0, 10000)])
+    m = rng.randrange(1, 13)
+    leap = y % 4 == 0 and (y % 100 != 0 or y % 400 == 0)
+    dim = [31, 29 if leap else 28, 31, 30, 31, 30, 31, 31, 30, 31, 30, 31][m - 1]
+    d = rng.randrange(1, dim + 1)
+    hh, mi, ss = rng.randrange(24), rng.randrange(60), rng.randrange(60)
+    if rng.random() < 0.3:
+        hh = rng.randrange(10)
+    date = "%04d-%02d-%02d" % (y, m, d)
+    clock = "%02d:%02d:%02d" % (hh, mi, ss)
+    t = date + "T" + clock
+    fam = rng.choice(["canonical", "lower-t", "hour-1digit", "hour-1digit-miss", "field-1digit", "field-3digit", "range-hour", "range-minute",
+                      "range-second", "range-month", "range-day", "leap-day", "year-edge", "fraction-zero", "fraction-nonzero", "fraction-broken",
+                      "zone", "separator", "zero", "zero-miss", "space", "date-only", "kind", "sign", "nonascii-digit"])
+    if fam == "canonical":
+        return fam, t
+    if fam == "lower-t":
+        return fam, date + "t" + clock
+    if fam == "hour-1digit":
+        return fam, date + rng.choice("Tt") + "%d:%02d:%02d" % (rng.randrange(10), mi, ss) + rng.choice(["", "", ".0", ",000"])
+    if fam == "hour-1digit-miss":
+        return fam, date + "T" + rng.choice(["%d%02d:%02d" % (hh % 10, mi, ss), ":%02d:%02d" % (mi, ss), "0%02d:%02d:%02d" % (hh, mi, ss), "%d:%d:%02d" % (hh % 10, mi % 10, ss),
+                                             "%d :%02d:%02d" % (hh % 10, mi, ss), " %d:%02d:%02d" % (hh % 10, mi, ss)])
+    if fam == "field-1digit":
+        return fam, rng.choice(["%04d-%d-%02dT%s" % (y, m % 10 or 1, d, clock), "%04d-%02d-%dT%s" % (y, m, d % 10 or 1, clock), "%sT%02d:%d:%02d" % (date, hh, mi % 10, ss),
+                                "%sT%02d:%02d:%d" % (date, hh, mi, ss % 10), "%d-%02d-%02dT%s" % (y % 1000, m, d, clock)])
+    if fam == "field-3digit":
+        return fam, rng.choice(["%05d-%02d-%02dT%s" % (y, m, d, clock), "%04d-%03d-%02dT%s" % (y, m, d, clock), "%04d-%02d-%03dT%s" % (y, m, d, clock),
+                                "%sT%03d:%02d:%02d" % (date, hh, mi, ss), "%sT%02d:%03d:%02d" % (date, hh, mi, ss), "%sT%02d:%02d:%03d" % (date, hh, mi, ss)])
+    if fam == "range-hour":
+        return fam, "%sT%02d:%02d:%02d" % (date, rng.choice([24, 25, 29, 30, 99]), mi, ss)
+    if fam == "range-minute":
+        return fam, "%sT%02d:%02d:%02d" % (date, hh, rng.choice([60, 61, 99]), ss)
+    if fam == "range-second":
+        return fam, "%sT%02d:%02d:%02d" % (date, hh, mi, rng.choice([60, 61, 99]))
+    if fam == "range-month":
+        return fam, "%04d-%02d-%02dT%s" % (y, rng.choice([0, 13, 20, 99]), d, clock)
+    if fam == "range-day":
+        return fam, "%04d-%02d-%02dT%s" % (y, m, rng.choice([0, dim + 1, 32, 99]), clock)
+    if fam == "leap-day":
+        return fam, "%04d-02-%02dT%s" % (rng.choice([0, 4, 100, 400, 1900, 2000, 2020, 2021, 2023, 2024, 2100, 9996]), rng.choice([28, 29, 30]), clock)
+    if fam == "year-edge":
+        return fam, "%s-%02d-%02dT%s" % (rng.choice(["0000", "0001", "9999", "10000", "-001", "+2021", "2O21", " 2021"]), m, min(d, 28), clock)
+    if fam == "fraction-zero":
+        return fam, t + rng.choice([".0", ".000", ".000000000", ".0000000001", ".00000000099", ",0", ",000000000", ".0000000000000000000000", ",0000000009"])
+    if fam == "fraction-nonzero":
+        return fam, t + rng.choice([".5", ".123456789", ".000000001", ",1", ".000000010", ".9999999999", ",000000001", ".1000000000"])
+    if fam == "fraction-broken":
+        return fam, t + rng.choice([".", ",", ".x", ".0x", ".0Z", ". 0", ";0", ".0.0", ".0,0", "..0", ".-0", ":0", "0"])
+    if fam == "zone":
+        return fam, t + rng.choice(["Z", "z", "+01:00", "-07:00", "+0000", " UTC", "+00", ".0Z", "Z0"])
+    if fam == "separator":
+        return fam, date + rng.choice([" ", "", "_", "TT", "-", ":", "\u0054\u0054"]) + clock
+    if fam == "zero":
+        return fam, "0000-00-00T00:00:00"
+    if fam == "zero-miss":
+        return fam, rng.choice(["0000-00-00t00:00:00", "0000-00-00T00:00:00.0", "0000-00-00T00:00:01", "0000-00-00T0:00:00", "0000-00-01T00:00:00", "0000-01-00T00:00:00",
+                                "0000-00-00", "0000-00-00T00:00:00Z", "0000-01-01T00:00:00", "0001-01-01T00:00:00"])
+    if fam == "space":
+        return fam, rng.choice([" " + t, t + " ", t + "\n", "\t" + t])
+    if fam == "date-only":
+        return fam, rng.choice([date, date + "T", date + "T" + clock[:5], date + "T" + clock[:2], clock, ""])
+    if fam == "kind":
+        return fam, rng.choice([None, 5, True, [], {}, [t], 20210526134500, 0])
+    if fam == "sign":
+        return fam, rng.choice([date + "T+%d:%02d:%02d" % (hh % 10, mi, ss), date + "T-%d:%02d:%02d" % (hh % 10, mi, ss), "%04d-+%d-%02dT%s" % (y, m % 10, d, clock),
+                                date + "T%02d:+%d:%02d" % (hh, mi % 10, ss)])
+    return fam, t.replace(str(rng.randrange(10)), rng.choice(["\u0660", "\u0663", "\uff11", "\u00b2"]), 1)
+
+
+DT_MEMBERS = ("at", "issue_date_time", "purchase_date_time")
+
+
+def place_leaf(rng, j, what):
+    """put a spelling at a uuid / date-time member of the document (an existing one, else a new one where the Go type has it)"""
+    j = copy.deepcopy(j)
+    fam, v = uuid_spelling(rng) if what == "uuid" else datetime_spelling(rng)
+    names = ("uuid",) if what == "uuid" else DT_MEMBERS
+    cand = [p for p, _ in paths(j) if p and p[-1] in names]
+    doc = j.get("doc") if isinstance(j.get("doc"), dict) and isinstance(j.get("head"), dict) else j
+    if what == "uuid":
+        if cand and rng.random() < 0.6:
+            return fam, setp(j, rng.choice(cand), v)
+        tgt = rng.choice([j.get("head") if doc is not j else doc, doc])
+        tgt["uuid"] = v
+        return fam, j
+    if cand and rng.random() < 0.7:
+        return fam, setp(j, rng.choice(cand), v)
+    if isinstance(doc.get("supplier"), dict) and isinstance(doc.get("lines"), list):     # bill.Invoice and its kin: currency.ExchangeRate.at
+        doc["exchange_rates"] = [{"from": "USD", "to": "EUR", "at": v, "amount": "0.92"}]
+        return fam, j
+    if cand:
+        return fam, setp(j, rng.choice(cand), v)
+    return None, j
+
+
 KINDS = ["shuffle", "shuffle", "unknown", "unknown", "remove", "remove", "nullify", "retype", "value", "value", "case", "dup", "legacy", "empty"]
 
 
@@ -185,14 +360,32 @@ def run_all(c, quick, rich_dir):
             k = next(iter(j2))
             txt = txt[:-1] + "," + json.dumps(k) + ":" + dumps(j2[k]) + "}"
         cases.append((n, kind, j["$schema"], txt.encode(), j2))
+    # spellings of the uuid / date-time leaves at members of those types
+    nleaf = 1500 if quick else 60000
+    family = {}
+    dt_srcs = [(n, j) for n, j in srcs if any(p and p[-1] in DT_MEMBERS for p, _ in paths(j))
+               or (isinstance(j.get("doc", j), dict) and isinstance(j.get("doc", j).get("supplier"), dict) and isinstance(j.get("doc", j).get("lines"), list))]
+    for i in range(nleaf):
+        what = "uuid" if i % 2 == 0 or not dt_srcs else "datetime"
+        n, j = rng.choice(srcs if what == "uuid" else dt_srcs)
+        fam, j2 = place_leaf(rng, j, what)
+        if fam is None:
+            continue
+        family[len(cases)] = "%s:%s" % (what, fam)
+        cases.append((n, "leaf-" + what, j["$schema"], dumps(j2).encode(), j2))
     res, mlines = both([(s, d) for _, _, s, d, _ in cases])
     stats = {}
     shown = {"corr": 0, "stable": 0}
     src_dom = 0
-    for (n, kind, sid, d, j2), (gv, st, mv), ml in zip(cases, res, mlines):
+    fam_stats = {}
+    for idx, ((n, kind, sid, d, j2), (gv, st, mv), ml) in enumerate(zip(cases, res, mlines)):
         gk, mk = gv[0].decode(), mv[0].decode()
         if gk == "notjson":
             continue
+        if idx in family:
+            fs = fam_stats.setdefault(family[idx], {})
+            fk = "go=%s model=%s" % (gk, mk)
+            fs[fk] = fs.get(fk, 0) + 1
         key = "%s go=%s model=%s" % (kind, gk, mk)
         stats[key] = stats.get(key, 0) + 1
         c.count("typed-marshal:" + kind, 1, d if mk != "dom" else None)
@@ -224,8 +417,14 @@ def run_all(c, quick, rich_dir):
                       "variation": kind, "source": n, "theorems": "serialised_schema_document_reads_back_identically, reenc_struct_member_order_irrelevant, reenc_ignores_unknown_members (rocq/Props/C04.v) speak about the model only while this holds",
                       "rerun": "echo 'tj schema %s %s' | bin/vharness ; echo '%s' | bin/oracle" % (w(sid), w(dumps(small).encode()), ml1[0])},
                      no_input=True)
-    c.cov["typed_marshal"] = {"sources": len(srcs), "variations": nvar, "verdicts": stats, "sources_outside_model_domain": src_dom,
-                              "note": "model verdict dom = outside the modelled domain (case-insensitive member match, duplicate members, non-canonical date-time / uuid / float / base64 spellings, legacy tax.tags): counted, not compared"}
+    c.cov["typed_marshal"] = {"sources": len(srcs), "variations": nvar, "leaf_spellings": nleaf, "leaf_spelling_families": fam_stats,
+                              "verdicts": stats, "sources_outside_model_domain": src_dom,
+                              "note": "model verdict dom = outside the modelled domain (case-insensitive member match, duplicate members, non-canonical float / base64 / signature spellings, legacy tax.tags): counted, not compared; uuid and date-time spellings are read exactly by the model"}
+    # every family of uuid / date-time spellings must have been compared (not skipped as dom) at least once
+    never = sorted(f for f, v in fam_stats.items() if all(k.endswith("model=dom") for k in v))
+    if never:
+        c.report("typed marshalling: uuid / date-time spelling families never compared (model answered dom every time): %s" % ", ".join(never),
+                 {"correspondence": "typed-marshal leaf spellings", "families": never}, no_input=True)
     if srcs and src_dom * 5 > len(srcs):
         c.report("typed marshalling: %d of %d unmodified source documents are outside the model's domain" % (src_dom, len(srcs)),
                  {"correspondence": "typed-marshal domain", "sources_outside": src_dom}, no_input=True)
